@@ -64,7 +64,7 @@ Theorem C14_zero_gain_run (st : state) (i : nat) (n : rnode) (x din T : nat) :
   heap (fst (step st (ORun i x din T))) = heap st /\
   epoch (fst (step st (ORun i x din T))) = epoch st /\
   forall e, In e (snd (step st (ORun i x din T))) ->
-    exists W Win b, e_term e = TRun (c_hyp (n_cfg n)) W Win b (wfb_mat n) (n_log n ++ [mkRun x T []]).
+    exists W Win b, e_term e = TRun (c_hyp (n_cfg n)) W Win b (wfb_mat n) (n_log n ++ [mkRun x T (fb_active n) []]).
 Proof. exact (run_zero_gain st i n x din T). Qed.
 
 (* ---- the seed reaches every component ------------------------------------------------------------------------------------------
@@ -74,6 +74,15 @@ Theorem C14_seed_reaches_every_component (i s : nat) (st : state) (h : list op) 
   nodes st i = None -> wf i st -> Forall (seeded_op_with i s) h ->
   Forall (fun e => term_rooted s (e_term e)) (proj i (snd (exec st h))).
 Proof. exact (seed_reaches_fresh i s st h). Qed.
+
+(* in particular the feedback weights: whatever the node did before its feedback connection was initialised (noisy runs
+   that advanced its noise generator, any state of the program), Wfb of a reservoir built with the integer seed s is the
+   draw at position 0 of default_rng(s) *)
+Theorem C14_seeded_Wfb_is_position_zero (st : state) (i : nat) (n : rnode) (dfb s : nat) :
+  c_src (n_cfg n) = SInt s ->
+  map e_term (snd (do_initfb st i n dfb)) =
+    [TMat (MDraw (mkDraw (Seeded s) [] (mkReq DBERN (c_units (n_cfg n)) dfb (fst (c_Fb (n_cfg n)))) (snd (c_Fb (n_cfg n)))))].
+Proof. intros H. rewrite (do_initfb_int st i n dfb s H). reflexivity. Qed.
 
 (* ---- different seeds, different streams ------------------------------------------------------------------------------------------ *)
 Theorem C14_different_seeds_different_streams (i j s1 s2 : nat) (st : state) (h : list op) (e1 e2 : event) :
@@ -123,6 +132,14 @@ Example C14_shared_generator_advances :
   map e_term (proj 1 (snd (exec (init_state 0) same_object))) <> map e_term (proj 2 (snd (exec (init_state 0) same_object))) /\
   map e_term (proj 1 (snd (exec (init_state 0) fresh_objects))) = map e_term (proj 2 (snd (exec (init_state 0) fresh_objects))).
 Proof. vm_compute. split; [discriminate | reflexivity]. Qed.
+(* feedback attached after noisy warm-up runs of different lengths: same Wfb (same W, Win, bias too) *)
+Definition ex_late (i warm : nat) : list op :=
+  [OConstruct i (mkCfg 6 (SInt 3) false 0 0 2 0 true (0,0) (0,0) (0,0) (0,0) 0); ORun i 0 1 warm; OAttachFb i; OInitFb i 2; ORun i 1 1 2].
+Example C14_wfb_after_warmup :
+  let evs := snd (exec (init_state 0) (ex_late 1 0 ++ ex_late 2 7)) in
+  map e_term (filter (fun e => e_tag e <? 4) (proj 1 evs)) = map e_term (filter (fun e => e_tag e <? 4) (proj 2 evs)) /\
+  length (filter (fun e => e_tag e =? TAG_WFB) evs) = 2.
+Proof. vm_compute. split; reflexivity. Qed.
 (* with an integer seed every initialiser restarts default_rng(seed): Win and bias of the same shape are the same draw *)
 Example C14_int_seed_same_position :
   exists d, map e_term (snd (exec (init_state 0) [OConstruct 0 (ex_cfg (SInt 3)); OInit 0 1])) =
@@ -142,5 +159,6 @@ Print Assumptions C14_global_seed_reproducible_fresh_process.
 Print Assumptions C14_zero_gain_no_noise.
 Print Assumptions C14_zero_gain_run.
 Print Assumptions C14_seed_reaches_every_component.
+Print Assumptions C14_seeded_Wfb_is_position_zero.
 Print Assumptions C14_different_seeds_different_streams.
 Print Assumptions C14_same_seed_bit_identical.
